@@ -196,6 +196,63 @@ theorem kinds_exclusive (h₁ h₂ : Shape) (i : In) (r₁ r₂ : Reason)
     simp [invocableS, gateS, e₂] at i₂; exact i₂.2.1.1
   rw [a₁, a₂]
 
+/-! ### The whole pass `process_resource_causes` (detection, finalizer cycles, handling) -/
+
+/-- The pass invokes nothing that detection + the two gates would not: every "never invoked" clause above
+    holds of `invocableRC` / `subInvocableRC` as well (corollaries below). -/
+theorem rc_le (h : Shape) (i : In) (mb : Bool) (hinv : invocableRC h i mb = true) : invocableS h i = true := by
+  simp [invocableRC] at hinv; exact hinv.2
+
+theorem rc_sub_le (p s : Shape) (i : In) (mb : Bool) (hinv : subInvocableRC p s i mb = true) :
+    subInvocable p s i = true := by
+  simp [subInvocableRC, invocableRC] at hinv
+  simp [subInvocable, hinv.1.2, hinv.2]
+
+theorem rc_no_create_update_field_on_marked (h : Shape) (i : In) (mb : Bool)
+    (hk : h.reason = some .create ∨ h.reason = some .update ∨
+          (h.reason = none ∧ h.initial = false ∧ h.needsChange = true))
+    (hinv : invocableRC h i mb = true) : i.marked = false := by
+  have h' := rc_le h i mb hinv
+  rcases hk with hk | hk | ⟨h1, h2, h3⟩
+  · exact no_create_update_on_marked h i (Or.inl hk) h'
+  · exact no_create_update_on_marked h i (Or.inr hk) h'
+  · exact no_field_on_marked h i h1 h2 h3 h'
+
+theorem rc_delete_only_while_held (h : Shape) (i : In) (mb : Bool) (hk : h.reason = some .delete)
+    (hinv : invocableRC h i mb = true) : i.deleted = false ∧ i.marked = true ∧ i.blocked = true :=
+  delete_only_while_held h i hk (rc_le h i mb hinv)
+
+theorem rc_none_for_gone_free_noop (h : Shape) (i : In) (mb : Bool)
+    (hr : detectReason i = .gone ∨ detectReason i = .free ∨ detectReason i = .noop) :
+    invocableRC h i mb = false := by
+  simp [invocableRC, none_for_gone_free_noop h i hr]
+
+/-- What the finalizer cycles add: a deletion handler runs only while the finalizer is REQUIRED (by a mandatory
+    deletion handler, a daemon or a timer): optional deletion handlers on their own never run — the cycle that
+    would run them removes the finalizer instead (docs: "optional=True: … called only if the finalizer is there
+    for other reasons"). -/
+theorem rc_delete_needs_requirement (h : Shape) (i : In) (mb : Bool) (hk : h.reason = some .delete)
+    (hinv : invocableRC h i mb = true) : mb = true := by
+  have hb := (rc_delete_only_while_held h i mb hk hinv).2.2
+  cases mb <;> simp_all [invocableRC, finalizerCycle]
+
+/-- … and no change handler at all runs on an unmarked object in the cycle in which the required finalizer
+    is still absent (creation handlers wait for the finalizer). -/
+theorem rc_nothing_before_the_finalizer (h : Shape) (i : In) (hm : i.marked = false) (hb : i.blocked = false) :
+    invocableRC h i true = false := by
+  simp [invocableRC, finalizerCycle, hm, hb]
+
+/-- Outside the finalizer cycles the pass is exactly detection + the two gates. -/
+theorem rc_eq_outside_finalizer_cycles (h : Shape) (i : In) (mb : Bool) (hf : finalizerCycle i mb = false) :
+    invocableRC h i mb = invocableS h i := by
+  simp [invocableRC, hf]
+
+-- non-vacuity
+example : invocableRC ⟨some .delete, false, false, false⟩ ⟨false, true, true, false, false, false⟩ true = true := by decide
+example : invocableRC ⟨some .delete, false, false, false⟩ ⟨false, true, true, false, false, false⟩ false = false := by decide
+example : invocableRC ⟨some .create, false, false, false⟩ ⟨false, false, false, true, true, false⟩ false = true := by decide
+example : finalizerCycle ⟨false, true, false, false, false, false⟩ true = false := by decide
+
 -- non-vacuity: the hypotheses are met by concrete inputs
 example : invocableS ⟨some .delete, false, false, false⟩ ⟨false, true, true, false, false, false⟩ = true := by decide
 example : invocableS ⟨none, true, true, false⟩ ⟨false, true, true, false, false, true⟩ = true := by decide
